@@ -250,7 +250,7 @@ class Contract:
                  lift=None, note="", abstract=None, result_type=None, search=None, cuts=(),
                  opaque=False, shape=None, ensures=None, transparent=(), assumed=False, memo_transparent=(),
                  on_apply=None, shards=1, native_spec=None, spec_module=None, post=None, call_inline=False,
-                 native_pre=None, native_post=None, split_model=None, congruent=False):
+                 native_pre=None, native_post=None, split_model=None, congruent=False, memo_skip=(), tier=None):
         self.qual = qual              # "yarl._parse:split_netloc"
         self.params = params          # list[(name, type)]
         self.spec = spec              # native function object defined in a contracts module
@@ -276,6 +276,8 @@ class Contract:
         self.spec_module = spec_module   # module whose names loop contracts may use when spec is None
         self.post = post              # boolean expression over the locals, ghosts (G_*) and `result` at every return
         self.call_inline = call_inline   # callers execute the body (the function's effect is on its argument's memo)
+        self.memo_skip = tuple(memo_skip)  # memo keys whose eager == lazy obligation is not attempted here (stated in the claim)
+        self.tier = tier                 # "thorough": the contract is only run in the thorough tier
         self.congruent = congruent       # opaque applications on equal (not merely identical) strings give equal results
         self.split_model = split_model   # "plist": str.split lists are modelled at the string level (pyvc/plist.py)
         self.native_pre = native_pre     # engine-level precondition / pre-state capture (ex, st, args) -> pre
@@ -463,6 +465,9 @@ def make_param(ctx, name, ty):
             out.append((f"({lab},)", ("vargs", [d])))
         out.append(("(str, str)", ("vargs", [("str", name + "a"), ("str", name + "b")])))
         return out
+    if ty == "strtuple":
+        return [("()", ("vargs", [])), ("(str,)", ("vargs", [("str", name + "0")])),
+                ("(str, str)", ("vargs", [("str", name + "a"), ("str", name + "b")]))]
     if ty == "pickle-state":
         return [("state=(parts,)", ("state", "tuple")), ("state=(None,{'_val':parts})", ("state", "dict"))]
     if ty == "fresh-url":
@@ -626,7 +631,7 @@ def verify_lemma(lemma, registry, combo_filter=None, timeout_ms=10000, rounds=3)
     return res
 
 
-def _memo_obligations(ex, st, obj, nm):
+def _memo_obligations(ex, st, obj, nm, skip=()):
     """C08-O2 / C09: every entry a function leaves in the per-object memo of a URL it returns
     must equal the value the corresponding lazy accessor computes from the stored parts."""
     cache = obj.fields.get("_cache")
@@ -659,6 +664,8 @@ def _memo_obligations(ex, st, obj, nm):
     else:
         return
     for k, cv in list(cache_items.items()):
+        if k in skip:
+            continue
         fn = spec_url.MEMO_SPECS.get(k)
         if fn is None:
             ex.oblige(st, f"memo:{k}:no-lazy-definition[{nm}]", "memo", z3.BoolVal(False), None, {})
@@ -919,7 +926,7 @@ def verify_contract(contract, registry, combo_filter=None, timeout_ms=10000, rou
                                   saved_tr = ex.transparent
                                   ex.transparent = set(saved_tr) | contract.memo_transparent
                                   try:
-                                      _memo_obligations(ex, s3, val, nm)
+                                      _memo_obligations(ex, s3, val, nm, contract.memo_skip)
                                   finally:
                                       ex.transparent = saved_tr
                               if contract.ensures is not None:
